@@ -291,8 +291,10 @@ def gen_sbc_params(rng, n_atoms=None):
             p["pos_tol"] = float(rng.choice([0.2, 0.5, 0.7, 1.0]))
         if rng.random() < 0.4:
             p["max_cell_size"] = float(rng.choice([4, 6, 8]))
-        if rng.random() < 0.3:
-            p["merge_threshold"] = float(rng.choice([0.0, 0.1, 0.5, 0.9, 1.0]))
+        if rng.random() < 0.5:
+            # extremes are over-weighted: 1.0 = never merge (all overlaps go to
+            # localisation), 0.0 = merge whenever one atom is shared
+            p["merge_threshold"] = float(rng.choice([0.0, 0.1, 0.5, 0.9, 1.0, 1.0, 1.0]))
         if rng.random() < 0.4:
             p["radii"] = str(rng.choice(["covalent", "vdw", "vdw_covalent"]))
     return p
@@ -613,3 +615,9 @@ def gen_monolayer(rng, maxn=300):
     b, perm = present(a, noise, rng, rotate=bool(rng.integers(2)))
     recipe = {"family": "monolayer", "material": name, "rep": n, "pbcz": pz, "noise": noise, "n": len(b)}
     return (b, recipe, u, a), None
+
+
+def spec_to_atoms_cached(d):
+    from matsim.sio import spec_to_atoms
+
+    return spec_to_atoms(d)
